@@ -20,7 +20,7 @@ use chewing::conversion::{ChewingEngine, FuzzyChewingEngine, SimpleEngine};
 use chewing::dictionary::{Dictionary, Layered, LookupStrategy, Phrase, TrieBuf};
 use chewing::editor::keyboard::{KeyCode, KeyEvent, KeyboardLayout, Modifiers, Qwerty};
 use chewing::editor::verif_hooks::take_conversion_log;
-use chewing::editor::zhuyin_layout::{KeyBehavior, Standard, SyllableEditor};
+use chewing::editor::zhuyin_layout::{DaiChien26, Et, Et26, GinYieh, Hsu, Ibm, KeyBehavior, Pinyin, Standard, SyllableEditor};
 use chewing::editor::{
     AbbrevTable, BasicEditor, CharacterForm, ConversionEngineKind, Editor, EditorKeyBehavior, EditorOptions,
     LanguageMode, LaxUserFreqEstimate, SymbolSelector, UserPhraseAddDirection,
@@ -66,6 +66,24 @@ struct CaseSetup {
     abbr: Vec<(char, String)>,
     symsel: Vec<(String, Option<String>)>,
     lifetime: u64,
+    /// the phonetic layout the editor starts with (numbers of Model/Layout.v: 0 Standard, 1 Hsu, 2 IBM, 3 Gin-Yieh,
+    /// 4 ET, 5 ET26, 6 DaChen26, 7 Hanyu, 8 THL, 9 MPS2)
+    layout: u8,
+}
+
+fn new_layout(l: u8) -> Box<dyn SyllableEditor> {
+    match l {
+        0 => Box::new(Standard::new()),
+        1 => Box::new(Hsu::new()),
+        2 => Box::new(Ibm::new()),
+        3 => Box::new(GinYieh::new()),
+        4 => Box::new(Et::new()),
+        5 => Box::new(Et26::new()),
+        6 => Box::new(DaiChien26::new()),
+        7 => Box::new(Pinyin::hanyu()),
+        8 => Box::new(Pinyin::thl()),
+        _ => Box::new(Pinyin::mps2()),
+    }
 }
 
 #[derive(Clone, Debug)]
@@ -88,6 +106,8 @@ enum Op {
     Unlearn(Vec<Syllable>, String),
     /// call every query function n times (C17); the editor must not change
     Get(usize),
+    /// Editor::set_syllable_editor (chewing_set_KBType): a fresh syllable editor of this layout
+    Layout(u8),
 }
 
 fn op_line(op: &Op) -> String {
@@ -112,6 +132,7 @@ fn op_line(op: &Op) -> String {
         Op::Learn(k, t) => format!("learn {}|{}", key_str(k), cps(t)),
         Op::Unlearn(k, t) => format!("unlearn {}|{}", key_str(k), cps(t)),
         Op::Get(n) => format!("get {}", n),
+        Op::Layout(l) => format!("layout {}", l),
     }
 }
 
@@ -138,6 +159,7 @@ fn parse_op(l: &str) -> Op {
         }
         "engine" => Op::Engine(rest[0].parse().unwrap()),
         "get" => Op::Get(rest[0].parse().unwrap()),
+        "layout" => Op::Layout(rest[0].parse().unwrap()),
         "clearsyl" => Op::ClearSyl,
         "jnext" => Op::JNext,
         "jprev" => Op::JPrev,
@@ -240,7 +262,11 @@ fn build_editor(setup: &CaseSetup, scratch: &std::path::Path) -> Editor {
         }
     }
     let symsel = SymbolSelector::new(std::io::Cursor::new(symtxt)).unwrap();
-    Editor::new(Box::new(ChewingEngine::new()), dict, LaxUserFreqEstimate::new(setup.lifetime), abbr, symsel)
+    let mut ed = Editor::new(Box::new(ChewingEngine::new()), dict, LaxUserFreqEstimate::new(setup.lifetime), abbr, symsel);
+    if setup.layout != 0 {
+        ed.set_syllable_editor(new_layout(setup.layout));
+    }
+    ed
 }
 
 fn behavior_str(b: EditorKeyBehavior) -> &'static str {
@@ -293,6 +319,10 @@ fn apply(ed: &mut Editor, op: &Op) -> String {
         Op::Learn(k, t) => format!("{}", ed.learn_phrase(k, t).is_ok() as u8),
         Op::Unlearn(k, t) => format!("{}", ed.unlearn_phrase(k, t).is_ok() as u8),
         Op::Get(_) => "-".into(),
+        Op::Layout(l) => {
+            ed.set_syllable_editor(new_layout(*l));
+            "-".into()
+        }
     }
 }
 
@@ -312,6 +342,7 @@ thread_local! {
     static QSTATE: std::cell::Cell<u8> = const { std::cell::Cell::new(0) };   // 0 not built, 1 running, 2 stopped
     static CUR_SETUP: std::cell::RefCell<Option<CaseSetup>> = const { std::cell::RefCell::new(None) };
     static CUR_ENGINE: std::cell::Cell<u8> = const { std::cell::Cell::new(1) };
+    static CUR_LAYOUT: std::cell::Cell<u8> = const { std::cell::Cell::new(0) };
 }
 
 fn begin_case(setup: &CaseSetup, sparse: bool) {
@@ -321,6 +352,7 @@ fn begin_case(setup: &CaseSetup, sparse: bool) {
     QSTATE.with(|c| c.set(0));
     CUR_SETUP.with(|c| *c.borrow_mut() = Some(setup.clone()));
     CUR_ENGINE.with(|c| c.set(1));
+    CUR_LAYOUT.with(|c| c.set(setup.layout));
 }
 
 /// every public query function of the editor, rendered (C17: a repeated call returns an equal value)
@@ -370,6 +402,9 @@ fn twin_after(ed: &mut Editor, op: &Op, out: &mut String) {
     if let Op::Engine(k) = op {
         CUR_ENGINE.with(|c| c.set(*k));
     }
+    if let Op::Layout(l) = op {
+        CUR_LAYOUT.with(|c| c.set(*l));
+    }
     let had_twin = TWIN.with(|t| t.borrow().is_some());
     if had_twin && !matches!(op, Op::Clear) {
         let mut tw = TWIN.with(|t| t.borrow_mut().take()).unwrap();
@@ -400,6 +435,7 @@ fn twin_after(ed: &mut Editor, op: &Op, out: &mut String) {
                 .collect();
             let scratch = std::env::temp_dir().join(format!("vharness-ed-{}", std::process::id())).join("twin");
             let _ = std::fs::create_dir_all(&scratch);
+            setup.layout = CUR_LAYOUT.with(|c| c.get());
             let mut tw = build_editor(&setup, &scratch);
             tw.set_editor_options(ed.editor_options());
             match CUR_ENGINE.with(|c| c.get()) {
@@ -535,6 +571,9 @@ fn write_setup(n: usize, s: &CaseSetup, out: &mut String) {
     if SPARSE.with(|c| c.get()) {
         let _ = writeln!(out, "MODE sparse");
     }
+    if s.layout != 0 {
+        let _ = writeln!(out, "LAYOUT {}", s.layout);
+    }
     let _ = writeln!(out, "INIT {}", s.lifetime);
 }
 
@@ -639,16 +678,69 @@ fn random_syllable(rng: &mut Rng) -> (Syllable, Vec<KeyCode>) {
     }
 }
 
+/// a syllable the given layout can enter, with the key sequence that enters it: random keys pressed on the
+/// implementation's own layout object until one is answered with Commit (Pinyin: a spelling plus a tone key)
+fn random_syllable_for(rng: &mut Rng, layout: u8) -> (Syllable, Vec<KeyCode>) {
+    if layout == 0 {
+        return random_syllable(rng);
+    }
+    const PINYIN: [&str; 16] = ["zhong", "guo", "ni", "hao", "shi", "ce", "wo", "men", "ta", "xue", "ma", "a", "yi", "wu", "lü", "jiang"];
+    loop {
+        let mut obj = new_layout(layout);
+        let mut keys: Vec<KeyCode> = vec![];
+        let mut press = |obj: &mut Box<dyn SyllableEditor>, code: KeyCode, keys: &mut Vec<KeyCode>| -> KeyBehavior {
+            keys.push(code);
+            obj.key_press(Qwerty.map(code))
+        };
+        if layout >= 7 {
+            let w = *rng.pick(&PINYIN);
+            let mut ok = true;
+            for ch in w.chars().filter(|c| c.is_ascii_lowercase()) {
+                let code = Qwerty.map_ascii(ch as u8).code;
+                if press(&mut obj, code, &mut keys) != KeyBehavior::Absorb {
+                    ok = false;
+                    break;
+                }
+            }
+            if !ok {
+                continue;
+            }
+            let tone = *rng.pick(&[Space, N1, N2, N3, N4, N5]);
+            if press(&mut obj, tone, &mut keys) == KeyBehavior::Commit && !obj.read().is_empty() {
+                return (obj.read(), keys);
+            }
+            continue;
+        }
+        for _ in 0..5 {
+            let code = ALL_CODES[1 + rng.below(48) as usize];
+            match press(&mut obj, code, &mut keys) {
+                KeyBehavior::Commit => {
+                    if !obj.read().is_empty() {
+                        return (obj.read(), keys);
+                    }
+                    break;
+                }
+                KeyBehavior::Absorb => {}
+                _ => break,
+            }
+        }
+    }
+}
+
 fn cjk(rng: &mut Rng) -> char {
     char::from_u32(0x4e00 + rng.below(60) as u32).unwrap()
 }
 
 fn gen_setup(rng: &mut Rng) -> (CaseSetup, World) {
+    gen_setup_l(rng, 0)
+}
+
+fn gen_setup_l(rng: &mut Rng, layout: u8) -> (CaseSetup, World) {
     let n = 3 + rng.below(6) as usize;
     let mut syls = vec![];
     let mut keys = vec![];
     while syls.len() < n {
-        let (s, k) = random_syllable(rng);
+        let (s, k) = random_syllable_for(rng, layout);
         if !syls.contains(&s) {
             syls.push(s);
             keys.push(k);
@@ -718,7 +810,7 @@ fn gen_setup(rng: &mut Rng) -> (CaseSetup, World) {
         vec![]
     };
     let lifetime = rng.below(100);
-    (CaseSetup { sys, usr, abbr, symsel, lifetime }, World { syls, keys, no_word, chain })
+    (CaseSetup { sys, usr, abbr, symsel, lifetime, layout }, World { syls, keys, no_word, chain })
 }
 
 fn key_op(code: KeyCode, mods: Modifiers) -> Op {
@@ -727,7 +819,10 @@ fn key_op(code: KeyCode, mods: Modifiers) -> Op {
 }
 
 fn gen_case(rng: &mut Rng, n: usize, tier: &str, scratch: &std::path::Path, out: &mut String, stats: &mut Stats) {
-    let (setup, world) = gen_setup(rng);
+    // two cases in five run under another phonetic layout than the default one (the syllables of the case's world
+    // are ones that layout can enter); the layout can also be switched in the middle of a history
+    let layout = if rng.chance(3, 5) { 0 } else { 1 + rng.below(9) as u8 };
+    let (setup, world) = gen_setup_l(rng, layout);
     let sparse = rng.chance(1, 3);
     begin_case(&setup, sparse);
     write_setup(n, &setup, out);
@@ -869,6 +964,24 @@ fn gen_case(rng: &mut Rng, n: usize, tier: &str, scratch: &std::path::Path, out:
                     }
                     ops.push(if rng.chance(2, 3) { key_op(Enter, none) } else { Op::Commit });
                 }
+                _ if !selecting && (setup.layout == 1 || setup.layout == 5) && rng.chance(1, 3) => {
+                    // Hsu / ET26: a one-syllable list (own words + the words of the alternative readings) at one or two
+                    // per page, paged to its end, then the layout is switched to one without alternates
+                    let mut o = opts_vec(&ed.editor_options());
+                    o[7] = 1 + rng.below(2) as u32;
+                    ops.push(Op::Opts(o));
+                    ops.push(Op::Clear);
+                    let i = rng.below(world.syls.len() as u64) as usize;
+                    for k in &world.keys[i] {
+                        ops.push(key_op(*k, none));
+                    }
+                    ops.push(key_op(Down, none));
+                    for _ in 0..(2 + rng.below(8)) {
+                        ops.push(key_op(Right, none));
+                    }
+                    ops.push(Op::Layout(*rng.pick(&[0u8, 2, 6])));
+                    ops.push(key_op(*rng.pick(&[N1, N2, Right, Left]), none));
+                }
                 _ if !selecting && rng.chance(1, 6) => {
                     // a one-syllable choice whose word then leaves the dictionary (learn, type, choose it, unlearn):
                     // the choice stays on screen and is committed (seeded change C04-C)
@@ -984,6 +1097,10 @@ fn gen_case(rng: &mut Rng, n: usize, tier: &str, scratch: &std::path::Path, out:
                     let mut o = opts_vec(&ed.editor_options());
                     o[7] = 1 + rng.below(10) as u32;
                     ops.push(Op::Opts(o));
+                    // ... or the layout (its alternative readings lengthen / shorten a one-syllable list: fix b605e90)
+                    if rng.chance(1, 2) {
+                        ops.push(Op::Layout(*rng.pick(&[0u8, 1, 5, 6])));
+                    }
                 }
                 _ => {
                     // the user dictionary changes under an open phrase list (a candidate is removed /
@@ -1101,6 +1218,9 @@ fn gen_case(rng: &mut Rng, n: usize, tier: &str, scratch: &std::path::Path, out:
             o[12] = k as u32;
             o[11] = (k == 2) as u32;
             ops.push(Op::Opts(o));
+        } else if r < 97 && rng.chance(1, 3) {
+            // the phonetic layout is switched at any moment (chewing_set_KBType)
+            ops.push(Op::Layout(if rng.chance(1, 3) { setup.layout } else { rng.below(10) as u8 }));
         } else if r < 97 {
             ops.push(rng.pick(&[Op::Start, Op::Commit, Op::Clear, Op::Ack, Op::ClearSyl, Op::Cancel, Op::Select(0)]).clone());
         } else if r < 99 {
@@ -1211,7 +1331,7 @@ fn run(case_file: &str, out_path: &str) -> i32 {
         match tag {
             "CASE" => {
                 n = rest.trim().parse().unwrap_or(0);
-                setup = Some(CaseSetup { sys: vec![], usr: vec![], abbr: vec![], symsel: vec![], lifetime: 0 });
+                setup = Some(CaseSetup { sys: vec![], usr: vec![], abbr: vec![], symsel: vec![], lifetime: 0, layout: 0 });
                 ed = None;
                 dead = false;
                 sparse = false;
@@ -1234,6 +1354,7 @@ fn run(case_file: &str, out_path: &str) -> i32 {
                 }
             }
             "MODE" => sparse = rest.trim() == "sparse",
+            "LAYOUT" => setup.as_mut().unwrap().layout = rest.trim().parse().unwrap(),
             "INIT" => {
                 let s = setup.as_mut().unwrap();
                 s.lifetime = rest.trim().parse().unwrap();
@@ -1420,6 +1541,7 @@ fn sweep_c18(out_path: &str) -> i32 {
         abbr: vec![],
         symsel: vec![],
         lifetime: 0,
+        layout: 0,
     };
     let none = Modifiers::default();
     let mut n = 0usize;
